@@ -40,3 +40,28 @@ claim('C02',
       'bit-level content of levels/values and decoding by an independent reader (none is installed)',
       'Trusts the value-numbering walker (syntactic equality of linear length forms), the CFG and the IDL reader.',
       'DESIGN.md 5/C02')
+
+claim('C05',
+      'finite order-type decision table (AST of the interval tests interpreted over rank models) + structural whitelist/combinator rules',
+      'for every operator of the grammar, every order type of the constant(s) against (vmin, vmax) and every '
+      'None-ness of the bounds, filter_val/filter_in/filter_not_in exclude only when no value of the interval '
+      'can satisfy the condition (exhaustive); filter_out_stats/filter_out_cats exclude only for the three '
+      'whitelisted reasons, only for conditions naming the column/partition at hand, with isomorphic min/max '
+      'blocks; filter_row_groups keeps a row group iff any group has no exclusion, after wrapping a flat list '
+      'once; partition text is parsed int before float. Known finding K05 (not in) is reported per order model.',
+      'exactness of the stored bounds (C04), NaN/null comparison semantics, typing of partition text values',
+      'Trusts engine/absint.py and the dense-grid oracle; operands are shown (R5.1) to flow only into comparisons, '
+      'which is what licenses the order-type abstraction.',
+      'DESIGN.md 5/C05')
+
+claim('C13',
+      'accumulator kind discipline, operator-chain exhaustiveness, sibling call-site agreement, value-numbered cursor advance',
+      'the row evaluator ANDs conditions into a group initialised all-true and ORs finished groups into a '
+      'result initialised all-false, wraps a flat list once, has an arm with the right polarity and operand '
+      'order for every operator; count(), to_pandas() and the per-row-group read build the first-pass frame and '
+      'the mask from identical arguments; masks are sliced by cumulative row-group sizes over one pruned list '
+      'and a caller mask is length-checked; the mask cursor of the page loop advances by the rows of each page '
+      'and a skipped page moves no output. Known finding K13 (partition conditions skipped) is reported.',
+      'mask index arithmetic on runtime arrays inside read_data_page_v2 and the null-scatter branches',
+      'Trusts the symbolic walker and the grammar list; K13 is not repairable by a minimal patch.',
+      'DESIGN.md 5/C13')
